@@ -138,7 +138,7 @@ def gen_case(rng, tier):
     ordered = [d for d in s.docs]
     # exactly one unsafe element per case (an unsafe node that is refused aborts the build and would mask everything after it);
     # everything else is safe and must keep working
-    focus = rng.choice(['dyn', 'dyn', 'taint', 'taint', 'deep', 'deep', 'rename', 'alias', 'rec', 'override', 'late_marker', 'tagged_fstr'])
+    focus = rng.choice(['dyn', 'dyn', 'taint', 'taint', 'deep', 'deep', 'rename', 'alias', 'rec', 'override', 'late_marker', 'tagged_fstr', 'dyn_key'])
     # --- dynamic nodes with merge histories
     keys = []
     n_dyn = rng.choice([1, 1, 2, 3])
@@ -314,6 +314,7 @@ def gen_case(rng, tier):
     # --- a safe function node whose target name (or a direct argument) is overridden by unsafe content: a plain string /
     #     mapping that is unsafe only by inheritance (marker on its document root, its source, an ancestor) or by its own tag
     raw_alias = None
+    rename_after = None
     if focus == 'rename':
         i, i2 = s.uid(), s.uid()
         kind = rng.choice(['call', 'bind'])
@@ -323,6 +324,11 @@ def gen_case(rng, tier):
         depth = rng.choice([0, 0, 1, 2])
         chain = tuple(['rn'] + ['lvl%d' % d for d in range(depth)])
         put(safe1['doc'], chain, base)
+        if rng.random() < 0.5:
+            # ... and a later safe stage touches the same node again (an empty mapping, another argument): what the unsafe stage
+            # left there stays unsafe
+            rename_after = M([])
+            put(rename_after, chain, rng.choice([M([]), M([['y', S(3)]]), M([['y', S(3)], ['z', S(4)]])]))
         if kind == 'bind':
             put(safe1['doc'], ('rn_use',), SP('eval', code='rn' + ''.join(f'["lvl{d}"]' for d in range(depth)) + '()'))
         if how in ('root', 'source', 'include') and udoc is not None:
@@ -391,6 +397,8 @@ def gen_case(rng, tier):
     for d in ordered:
         if d['doc']['items'] or d is safe1:
             sources.append({'text': emit.emit(d['doc'], rng.choice(['flow', 'block'])), 'safe': d['safe']})
+    if focus == 'rename' and rename_after is not None:
+        sources.append({'text': emit.emit(rename_after, rng.choice(['flow', 'block'])), 'safe': True})
     if focus == 'override':
         # an explicit safe=True somewhere below an !unsafe node does not make what is below it safe again
         i = s.uid()
@@ -403,6 +411,13 @@ def gen_case(rng, tier):
         i = s.uid()
         tag = rng.choice(['!unsafe', "!metadata{{'safe': False}}", "!metadata{{'safe': False, 'note': 1}}"])
         sources.append({'text': f"fs{i}: {tag} f'v{{T.u{i}({i}).name}}'\n", 'safe': True})
+    if focus == 'dyn_key':
+        # mapping KEYS can be dynamic nodes too: below an !unsafe node they are as unsafe as the values
+        i = s.uid()
+        key = rng.choice([f'!eval "T.u{i}(1).name"', f"!fstr \"k{{T.u{i}(1).name}}\""])
+        shape = rng.choice([f'dk{i}: !unsafe {{ {key}: 1, z: 2 }}\n', f'dk{i}: !unsafe\n  m:\n    {key}: 1\n', f'--- !unsafe\ndk{i}:\n  {key}: 1\n',
+                            f"dk{i}: !metadata{{{{'safe': False}}}}\n  {key}: [1]\n"])
+        sources.append({'text': shape, 'safe': True})
     if focus == 'late_marker':
         # a later stage marks the container !unsafe: what the container already held is below an !unsafe node from then on
         i = s.uid()
